@@ -2897,6 +2897,9 @@ bn_calc_naf(bn_p bn, size_t wnd_bits, size_t naf_arr_size, int8_t *naf_arr,
 	mask = ((((bn_digit_t)1) << wnd_bits) - 1);
 	sign_bit = (uint8_t)(((uint8_t)1) << (wnd_bits - 1));
 	BN_RET_ON_ERR(bn_assign_init(&tm, bn));
+	if (tm.count < BN_MAX_DIGITS) {
+		tm.count ++; /* Room for the carry of tm += |itm|. */
+	}
 
 	while (0 == bn_is_zero(&tm)) {
 		if (0 != (tm.num[0] & 1)) { /* Is odd? */
